@@ -91,7 +91,7 @@ def main():
     results = {}
     try:
         for c in checks:
-            rc, out = sh('VERIF_TIME_BUDGET=300 ./check %s --tier quick' % c, cwd=VERIF, timeout=400)
+            rc, out = sh('VERIF_EVIDENCE_DIR=/tmp/o1722v-ev-eval VERIF_TIME_BUDGET=300 ./check %s --tier quick' % c, cwd=VERIF, timeout=400)
             viol = [l for l in out.split('\n') if l.startswith('VIOLATION')]
             first = ''
             lines = out.split('\n')
